@@ -994,8 +994,10 @@ class Engine:
             if any(c is True for c in cs): return True
             cs = [c for c in cs if c is not False]
             return Or(*cs) if cs else False
-        if isinstance(container, SVal) and getattr(container, 'as_set', False):
-            pass
+        if isinstance(container, SVal):
+            from . import heapmodels
+            if heapmodels.is_ref(self, p, container.t):
+                return heapmodels.dyn_contains(self, p, container, x)
         raise Unsupported(f'in {container!r}')
 
     def e_Attribute(self, p, e, fr):
@@ -1072,6 +1074,9 @@ class Engine:
                 self.oblige(p, 'key.tail', Key.is_KK(Key.t(base.t)), 'type'); return SKey(Key.t(base.t))
             raise Unsupported('key index')
         if isinstance(base, SVal):
+            from . import heapmodels
+            if heapmodels.is_ref(self, p, base.t):
+                return heapmodels.dyn_getitem(self, p, base, idx)
             if isinstance(idx, int) and idx >= 0:
                 t = base.t
                 for k in range(idx):
